@@ -145,11 +145,10 @@ class M(Model):
         v = self._view(s)
         mid, dur, real, st, sched = v["mid"], v["dur"], v["real"], v["st"], v["sched"]
         t = v["t"]
-        pad_sched = ~real & (st >= 0)
-        if pad_sched.any():
-            out.append(("padding operation scheduled", f"(job, op)={np.argwhere(pad_sched)[0].tolist()}"))
-        if sched.any() and st[sched].max() >= t:
-            out.append(("operation scheduled at or after the current clock", f"clock={t} latest start={st[sched].max()}"))
+        # audit: C06 = hard constraints only (job order, no overlap on a machine or within a job).  The value held by
+        # padding slots of scheduled_times, "start < clock" and the agreement of the bookkeeping fields ops_mask /
+        # machines_remaining_times / machines_job_ids with the schedule are not among them (C09 predicts those fields)
+        # - removed from the C06 oracle
         for j in range(self.J):
             ks = np.flatnonzero(real[j])
             # ops of a job are scheduled in order: scheduled ones form a prefix
@@ -174,20 +173,6 @@ class M(Model):
         bad_m = sched & ((mid < 0) | (mid >= self.Mc))
         if bad_m.any():
             out.append(("scheduled operation has no valid machine", str(np.argwhere(bad_m)[0].tolist())))
-        # bookkeeping fields agree with the schedule (an op runs on its required machine)
-        om = np.asarray(s.ops_mask).astype(bool)
-        if om.shape == v["todo"].shape and not np.array_equal(om, v["todo"]):
-            out.append(("ops_mask disagrees with scheduled_times", f"(job, op)={np.argwhere(om != v['todo'])[0].tolist()}"))
-        rt = np.asarray(s.machines_remaining_times).astype(np.int64)
-        if rt.shape == v["rem"].shape and not np.array_equal(rt, v["rem"]):
-            out.append(("machines_remaining_times disagrees with the schedule",
-                        f"field {rt.tolist()} recomputed {v['rem'].tolist()} clock {t}"))
-        mj = np.asarray(s.machines_job_ids).astype(np.int64)
-        if mj.shape == (self.Mc,):
-            busy = v["rem"] > 0
-            if (mj[busy] != v["job_on"][busy]).any():
-                out.append(("busy machine does not show the job whose operation it is processing",
-                            f"field {mj.tolist()} recomputed {v['job_on'].tolist()} (busy {busy.tolist()})"))
         return out
 
     def _finished(self, v, clock=None):
@@ -205,9 +190,8 @@ class M(Model):
         if v["todo"].any():
             j, k = np.argwhere(v["todo"])[0].tolist()
             out.append(("episode ended without penalty although operations are unscheduled", f"job {j} op {k}"))
-        elif not self._finished(v):
-            out.append(("episode ended before the last operation finished",
-                        f"clock {v['t']} makespan {int((v['st'] + v['dur'])[v['sched']].max())}"))
+        # audit: a fully scheduled feasible state *is* a complete solution; ending before the last operation has been
+        # processed is a termination-timing matter (C09 'last', C08 makespan) - removed from the C06 oracle
         return out
 
     # --------------------------------------------------------------------------------- C08
@@ -222,9 +206,8 @@ class M(Model):
         if a.shape != (self.Mc,) or (a < 0).any() or (a > self.J).any():
             return None
         if not self._legal_from_view(pv)[np.arange(self.Mc), a].all():
-            # (the driver's plans may end an episode with an illegal action) documented: -1 per
-            # earlier step, then the penalty
-            return -(float(v["t"]) - 1.0) + self.penalty, 1e-6
+            # audit: C08 quantifies over legal action sequences - an episode ended by an illegal action is not judged
+            return None
         if self._finished(v):
             # finished schedule: minus makespan
             return -float((v["st"] + v["dur"])[v["sched"]].max()), 1e-6
@@ -232,8 +215,8 @@ class M(Model):
             # "simultaneously idle" ending: no makespan; the documented return is -1 per elapsed
             # time step before the last one plus the penalty
             return -(float(v["t"]) - 1.0) + self.penalty, 1e-6
-        # an all-legal episode has no other documented ending: every step so far should have paid -1
-        return -float(v["t"]), 1e-6
+        # audit: an ending that is none of the documented ones has no documented objective (C09 reports the 'last')
+        return None
 
     # --------------------------------------------------------------------------------- C09
     def predict(self, s, a):
@@ -243,7 +226,7 @@ class M(Model):
         v = self._view(s)
         L = self._legal_from_view(v)
         if not L[np.arange(self.Mc), a].all():
-            return {"last": True, "reward": self.penalty, "discount": 0.0}
+            return {"last": True, "reward": self.penalty}  # audit: discount is C03's, not part of C09 - not predicted
         t = v["t"]
         st2 = v["st"].copy()
         for m in range(self.Mc):
@@ -273,8 +256,7 @@ class M(Model):
             "ops_durations": np.asarray(s.ops_durations),
         }
         last = bool(finished or idle)
-        return {"state": state, "reward": self.penalty if idle else -1.0, "last": last,
-                "discount": 0.0 if last else 1.0}
+        return {"state": state, "reward": self.penalty if idle else -1.0, "last": last}
 
     def stochastic_ok(self, s, a, s2):
         """Not stochastic: consistency of `machines_job_ids` (defined by the docs only for machines
@@ -318,12 +300,11 @@ class M(Model):
             out.append(("duration padding not -1", str(dur.tolist())[:200]))
         if not np.array_equal(np.asarray(s0.ops_mask).astype(bool), real):
             out.append(("initial ops_mask != real operations", ""))
-        if (np.asarray(s0.scheduled_times) != -1).any():
-            out.append(("operation scheduled at reset", ""))
+        # audit: the marker stored in scheduled_times for unscheduled ops (-1 only in a private docstring) and the value of
+        # machines_job_ids on idle machines (docs: "-1 means no-op" vs spec / generator: num_jobs) are not advertised
+        # instance invariants - removed
         if (np.asarray(s0.machines_remaining_times) != 0).any():
             out.append(("machine busy at reset", ""))
-        if (np.asarray(s0.machines_job_ids) != self.noop).any():
-            out.append(("machine not on no-op at reset", str(np.asarray(s0.machines_job_ids).tolist())))
         if int(s0.step_count) != 0:
             out.append(("clock not 0 at reset", str(int(s0.step_count))))
         return out
